@@ -1,7 +1,7 @@
 """C19 - alternative spellings of the grammar language are interchangeable."""
 from contracts import spellings
 from pyvc.report import Report
-from .common import run_fragments
+from .common import run_fragments, dependency_layer
 from . import wiring
 
 
@@ -19,4 +19,5 @@ def run(tier, seed):
     run_fragments(rep, spellings.SPELLED, tier)
     rep.assumptions.append('layout closure: the discarded/normalised positions of grammar.txt (wrap(...), LineSep, Comment/Space ignored, mixfix parentheses) make '
                            'ALL layouts equivalent by the contracts of Skip, Discard, Opt, Sep and operator tables (C01-C03, C02); only representatives are executed')
+    dependency_layer(rep, tier)
     return rep.finish()
